@@ -202,6 +202,7 @@ var c17ULabels = []string{
 	"\u4f8b\u3048",                         // CJK + hiragana
 	"caf\u00e9",
 	"\u0439\u043e\u0433", // short i decomposes under NFD
+	"\u03b1\u0390\u03b1", // U+0390 has no precomposed capital: its upper-case spelling is U+03AA U+0301
 	"example", "mail", "sub-1", "a", "org", "com", "x1",
 }
 
@@ -233,6 +234,16 @@ func c17Upper(r rune) rune {
 	return r
 }
 
+// the upper-case spelling as strings.ToUpper gives it for decomposed text, composed again (differs from the
+// rune-wise form 2 for letters without a precomposed capital); only when lower-casing leads back to the label
+func c17UpperOfDecomposed(u string) string {
+	up := norm.NFC.String(strings.ToUpper(norm.NFD.String(u)))
+	if norm.NFC.String(strings.ToLower(up)) != u {
+		return u
+	}
+	return up
+}
+
 type c17LabelSpelling struct {
 	Idx  int `json:"idx"`  // index into the label table
 	Form int `json:"form"` // 0 U/NFC 1 U/NFD 2 U/upper 3 A/lower 4 A/upper 5 A/"Xn--" mixed
@@ -251,6 +262,8 @@ func (s c17LabelSpelling) String() string {
 		return l.A
 	case 4:
 		return strings.ToUpper(l.A)
+	case 6:
+		return c17UpperOfDecomposed(l.U)
 	default:
 		if strings.HasPrefix(l.A, "xn--") {
 			return "Xn--" + l.A[4:]
@@ -262,7 +275,7 @@ func (s c17LabelSpelling) String() string {
 // local-part atoms: each is NFC, lower case and stable under upper/lower/NFD round trips
 var c17LocalAtoms = []string{
 	"a", "b", "user", "x", "z9", "o", "\u00e9", "\u00fc", "\u0439", "\u0442\u0435\u0441\u0442", "\u03b1\u03c3",
-	"\u4f8b", "+", "-", "_", ".", "=", "'",
+	"\u4f8b", "+", "-", "_", ".", "=", "'", "\u0080", // U+0080: the first character that is not ASCII
 }
 
 type c17LocalSpelling struct {
@@ -380,7 +393,7 @@ func c17GenVariants(t *rapid.T) c17Variants {
 		}
 		a.Local.Form = rapid.IntRange(0, 4).Draw(t, "lform")
 		for i := range a.Labels {
-			a.Labels[i].Form = rapid.IntRange(0, 5).Draw(t, "dform")
+			a.Labels[i].Form = rapid.IntRange(0, 6).Draw(t, "dform")
 		}
 		out.Addrs = append(out.Addrs, a)
 	}
@@ -531,7 +544,7 @@ func c17GenFree(t *rapid.T) c17Free {
 	}
 	n := rapid.IntRange(1, 2).Draw(t, "nlabels")
 	for i := 0; i < n; i++ {
-		f.Labels = append(f.Labels, c17LabelSpelling{Idx: rapid.IntRange(0, len(c17Labels)-1).Draw(t, "label"), Form: rapid.IntRange(0, 5).Draw(t, "form")})
+		f.Labels = append(f.Labels, c17LabelSpelling{Idx: rapid.IntRange(0, len(c17Labels)-1).Draw(t, "label"), Form: rapid.IntRange(0, 6).Draw(t, "form")})
 	}
 	return f
 }
